@@ -192,6 +192,10 @@ fn check_pair(a: &[u32], b: &[u32], id: u32, ctor: u8, stats: &mut Stats) -> Che
     well_formed(&(&gb & &ga), &inter, "bitand(&,&)")?;
     well_formed(&(ga.clone() & gb.clone()), &inter, "bitand(owned,owned)")?;
     well_formed(&(ga.clone() & &gb), &inter, "bitand(owned,&)")?;
+    // the same object on both sides
+    well_formed(&(&ga | &ga), &sa, "bitor(same-object)")?;
+    well_formed(&(&ga & &ga), &sa, "bitand(same-object)")?;
+    well_formed(&(ga.clone() | &ga), &sa, "bitor(owned,same)")?;
     let mut plus = sa.clone();
     plus.insert(id);
     let tid = HpoTermId::from_u32(id);
